@@ -8,6 +8,17 @@ HERE = os.path.dirname(os.path.dirname(os.path.abspath(__file__)))
 
 # pid -> (category, technique, level text, level note, design ref)
 CHECKS = {
+    "C04": (
+        "exploration",
+        "Hypothesis: recursive pattern generator + payloads derived from the pattern's witness by structural mutation; differential against an independent reference matcher; exhaustive small-universe table",
+        "Generated (pattern, payload) pairs - payloads derived from the pattern by insert/drop/swap/alter/retype - are run through the real "
+        "interpreter (`match Ev(p=P)` then `send Hit()`), and the verdict must equal an independent 40-line recursive matcher written from the "
+        "property text; a table over a tiny universe is enumerated completely; instance-specific matches ($ref.Finished()) are enumerated for "
+        "3 action/flow instances.",
+        "Trusts the reference matcher; regex-vs-bool/None and numerically-equal cross-type scalars are treated as unspecified and skipped/never generated; "
+        "patterns are literals (no ComparisonExpression).",
+        "DESIGN.md 4/C04",
+    ),
     "C18": (
         "exploration",
         "Hypothesis-generated texts/configs x exhaustive enumeration of all 2^(n-1) chunkings; metamorphic + reference-function oracle",
